@@ -253,6 +253,36 @@ def make_estimator(dreye, s, w=None, with_bounds=True):
     return est
 
 
+def est_query(c, est, method, B, attrs=None, registered=False, _where=None, use_try=False, _raises_ok=(), **kw):
+    """Ask an estimator-level question either with explicit targets, `est.method(B, **kw)`, or - `registered` - in the
+    registered-target mode `est.register_targets(B); est.method(**kw)`, where fitting methods return the estimator and
+    store their results in the attributes `attrs` (returned here as the tuple the explicit mode would have returned).
+    With use_try the call is made with c.try_call and (ok, value) is returned."""
+    fn = getattr(est, method)
+    where = _where or ("ReceptorEstimator." + method)
+    if not registered:
+        if use_try:
+            return c.try_call(fn, B, **kw)
+        return c.call(fn, B, _where=where, _raises_ok=_raises_ok, **kw)
+    if np.ndim(B) != 2:
+        return est_query(c, est, method, B, attrs, False, _where, use_try, _raises_ok, **kw)
+    c.cell("api=register_targets+" + method + "()")
+    c.call(est.register_targets, B, _where="register_targets")
+    if use_try:
+        ok, out = c.try_call(fn, **kw)
+        if not ok:
+            return ok, out
+    else:
+        out = c.call(fn, _where=where + " (registered targets)", _raises_ok=_raises_ok, **kw)
+    if attrs is not None:
+        c.require(out is est, "with registered targets the fitting method returns the estimator itself", mechanism="registered-mode-return")
+        missing = [a for a in attrs if not hasattr(est, a)]
+        if missing:
+            c.fail("registered-target mode did not store its results: " + ",".join(missing), mechanism="registered-mode-not-stored")
+        out = tuple(np.array(getattr(est, a)) for a in attrs)
+    return (True, out) if use_try else out
+
+
 def near_boundary_targets(rng, Mt, c0, lbv, ubv, inside_pool, scale, k=3):
     """Targets just outside / just inside the gamut of ANY configuration (bounded, unbounded, flat): bisect with the LP
     oracle between an interior capture and an outside point, then step by {1e-3,1e-4,1e-5}*scale along the segment.
